@@ -257,6 +257,88 @@ fn main() {
             }
         }
     }
+    // attribute kinds: every sample attribute (and AS4-relevant variants) announced on IPv4 unicast, 2- and 4-octet AS sessions,
+    // decoded by the opposite side; then the decoded value re-encoded and decoded again (fixed point)
+    {
+        let wide_path = samples::as_path_sample();
+        let mut variants: Vec<(String, Vec<Attribute>)> = vec![("all-samples".into(), samples::attr_samples())];
+        // a wide AS in the path together with an AGGREGATOR whose AS fits in two octets (no AS4_AGGREGATOR on the wire)
+        let mut v = vec![Attribute::new_with_value(Attribute::ORIGIN, 0).unwrap(), wide_path.clone()];
+        v.push(Attribute::new_with_bin(Attribute::AGGREGATOR, vec![0, 0, 0xfd, 0xe8, 192, 0, 2, 9]).unwrap());
+        variants.push(("wide-path+narrow-aggregator".into(), v));
+        // a narrow path with a wide aggregator
+        let mut v = samples::base_attrs();
+        v.push(Attribute::new_with_bin(Attribute::AGGREGATOR, vec![0xfa, 0x56, 0xea, 0x02, 192, 0, 2, 9]).unwrap());
+        variants.push(("narrow-path+wide-aggregator".into(), v));
+        for (name, attrs) in variants {
+            for as4 in [true, false] {
+                cases += 1;
+                let case = json!({"family": "attrs", "variant": name, "as4": as4});
+                let fams = vec![Family::IPV4];
+                let (mut tx, mut rx) = samples::codec_pair(&fams, as4, false, false, false);
+                let entries = vec![PathNlri { path_id: 0, nlri: samples::nlri_samples(Family::IPV4)[1].clone() }];
+                let msg = bgp::Message::Update(bgp::Update::Reach { family: Family::IPV4, entries, nexthop: samples::nexthop_for(Family::IPV4), attr: Arc::new(attrs.clone()) });
+                let mut buf = BytesMut::new();
+                if !matches!(catch_unwind(AssertUnwindSafe(|| tx.encode_to(&msg, &mut buf).is_ok())), Ok(true)) {
+                    report(&mut out, "encoder_panic", "attributes do not encode".into(), case);
+                    continue;
+                }
+                match decode_all(&mut rx, &buf, 4096) {
+                    Err(m) => report(&mut out, "frame", m, case),
+                    Ok(d) => {
+                        let mut wa: Vec<(u8, Vec<u8>)> = attrs.iter().map(attr_key).collect();
+                        wa.sort();
+                        if d.attrs.len() != 1 || d.attrs[0] != wa {
+                            let got: Vec<u8> = d.attrs.first().map(|a| a.iter().map(|x| x.0).collect()).unwrap_or_default();
+                            let diff: Vec<u8> = wa.iter().filter(|x| !d.attrs.first().is_some_and(|a| a.contains(x))).map(|x| x.0).collect();
+                            report(&mut out, "attrs", format!("attributes differ after decoding (codes that changed or vanished: {:?}; decoded codes {:?})", diff, got), case);
+                        }
+                    }
+                }
+            }
+        }
+        // values only a peer can produce: the Extended Length bit on a short value.  decode -> encode -> decode must be stable
+        for (name, flags) in [("community-extlen", 0xd0u8), ("med-extlen", 0x90u8)] {
+            cases += 1;
+            let case = json!({"family": "attrs", "variant": name});
+            let (code, val): (u8, Vec<u8>) = if flags == 0xd0 { (8, vec![0xfd, 0xe8, 0, 1]) } else { (4, vec![0, 0, 0, 7]) };
+            let mut a = vec![0x40, 1, 1, 0, 0x40, 2, 6, 2, 1, 0, 0, 0xfd, 0xe9, 0x40, 3, 4, 192, 0, 2, 1];
+            a.extend_from_slice(&[flags, code, 0, val.len() as u8]);
+            a.extend_from_slice(&val);
+            let mut m = vec![0xffu8; 16];
+            m.extend_from_slice(&((19 + 4 + a.len() + 4) as u16).to_be_bytes());
+            m.push(2);
+            m.extend_from_slice(&[0, 0]);
+            m.extend_from_slice(&(a.len() as u16).to_be_bytes());
+            m.extend_from_slice(&a);
+            m.extend_from_slice(&[24, 10, 1, 1]);
+            let (mut tx, mut rx) = samples::codec_pair(&[Family::IPV4], true, false, false, false);
+            let d1 = match decode_all(&mut rx, &m, 4096) {
+                Ok(d) => d,
+                Err(e) => {
+                    report(&mut out, "frame", format!("hand-written UPDATE rejected: {e}"), case);
+                    continue;
+                }
+            };
+            let mut buf2 = BytesMut::new();
+            let mut ok = true;
+            for x in &d1.msgs {
+                if !matches!(catch_unwind(AssertUnwindSafe(|| tx.encode_to(x, &mut buf2).is_ok())), Ok(true)) {
+                    ok = false;
+                }
+            }
+            let (_, mut rx2) = samples::codec_pair(&[Family::IPV4], true, false, false, false);
+            match decode_all(&mut rx2, &buf2, 4096) {
+                Ok(d2) if ok => {
+                    if d2.entries != d1.entries || d2.attrs != d1.attrs || d2.nexthops != d1.nexthops {
+                        report(&mut out, "fixed_point", "decode(encode(decoded)) differs from decoded".into(), case);
+                    }
+                }
+                Ok(_) => report(&mut out, "fixed_point", "a decoded value does not re-encode".into(), case),
+                Err(e) => report(&mut out, "fixed_point", format!("a decoded value re-encodes to a frame the peer rejects: {e}"), case),
+            }
+        }
+    }
     // OPEN: capability lists around and beyond the one-octet optional-parameter length
     for nfam in [1usize, 6, 12, 19] {
         for extra in [0usize, 3, 8] {
